@@ -217,6 +217,21 @@ class StmtMixin:
         self.frame_write(st, tgt, f"{c.name}:{m}", node)
 
     def setitem(self, st, base_node, base, idx, v, node):
+        if isinstance(base_node, ast.Attribute) and base_node.attr == "__dict__" and isinstance(idx, PyC) and isinstance(idx.obj, str):
+            # obj.__dict__[name] = v  is an attribute write that bypasses descriptors
+            out = []
+            for s, ob in self.ev(st, base_node.value):
+                if is_exc(ob):
+                    out.append((s, ("raise", ob)))
+                elif isinstance(ob, SymObj):
+                    self.oset(s, ob, idx.obj, v)
+                    out.append((s, None))
+                else:
+                    lo = self.lift(ob)
+                    self.frame_write(s, lo, f"{lo.origin or '?'}.__dict__[{idx.obj!r}]", node)
+                    self.heap_store(s, idx.obj, asV(lo), asV(self.lift(v)))
+                    out.append((s, None))
+            return out
         if isinstance(base, PyList):
             raise OutOfSubset("item assignment on static list", node)
         if isinstance(base, dict):
